@@ -9,15 +9,18 @@ CONFIG = {
                   "(C04_binary_search_*), pc->row is the last stored row with address <= pc (C04_pc_to_row_last) and a non-end_sequence row of greatest "
                   "address <= pc when no end_sequence row shares an address with another row (C04_pc_to_row_partial; false in general: "
                   "C04_pc_to_row_counterexample); pc->unit, pc->function (range containing pc with the greatest begin); every place of a line breakpoint is "
-                  "an is_stmt row of the line, or of the next line only if the line has none, at most one per function (C04_line_to_addrs_*); a function "
+                  "an is_stmt row of the line, or of the next line only if NO compilation unit has an is_stmt row of the line (one decision over the whole list of "
+                  "units: C04_line_to_addrs_sound, _line_wins, _fallback), at most one per function; a function "
                   "breakpoint is the first prologue_end row at or after low_pc (C04_fn_to_addr_partial under HasPE; counterexample without). The model is "
                   "tied to the code on every run: the implementation's stored tables are shipped to the model, every instruction address of the user "
-                  "functions, every source line and every function of several compiled binaries are asked on both sides and compared; the stored tables and "
+                  "functions, every source line and every function of several compiled binaries are asked on both sides and compared (two of the binaries are an rlib + a "
+                  "binary crate in 16 codegen units: one source file with rows in up to 7 units; every line of every file for which some unit lacks "
+                  "the line but has the next one is asked, the other multi-unit lines are sampled); the stored tables and "
                   "all answers are also compared with llvm-dwarfdump's decoding.",
     "level_note": "Trusted: Lean kernel + 3 standard axioms; the model<->code tie is sampling (per-binary exhaustive for user code, seeded samples of the "
                   "standard-library units); gimli's decoding is environment but its result is compared with llvm-dwarfdump on every run; path-template "
                   "matching is C17's theorem (queries use full paths). Completeness of line breakpoints (one per function containing the line) is NOT proved: "
-                  "it is false of the unchanged code (C04_line_to_addrs_counterexample, known finding).",
+                  "it is false of the unchanged code (C04_line_to_addrs_counterexample, C04_line_to_addrs_counterexample_pe_lookahead, known findings). The oracle identifies a source file by its exact path (/rustc/<hash>/ remapped to the default toolchain's sources, the rule the debugger applies).",
     "runs": {"quick": [{"n": 120, "timeout": 900}], "thorough": [{"n": 1500, "extra": ["--all-progs"], "timeout": 6000}]},
     "shrinkable": False,
     "trivial_answers": ["ok", "-", "bad-op", "", "none"],
